@@ -794,22 +794,7 @@ func (g *gen) document() ([]byte, docInfo) {
 			v = jarr(g.entry(), g.entry())
 		}
 		text := []byte(renderString(v, g.style()))
-		at := g.intn("at", 0, len(text)-1)
-		switch g.pick("damage", 5, 2, 2, 2) {
-		case 0:
-			text = text[:at]
-			info.kind = "damaged:truncated"
-		case 1:
-			text[at] = sample(g, "repl", byte('{'), byte('}'), byte('['), byte(']'), byte(','), byte(':'), byte('"'), byte('x'), byte(0), byte(0xff), byte('\''))
-			info.kind = "damaged:byte-replaced"
-		case 2:
-			ins := sample(g, "ins", ",", "}", "]", "\"", "{", "[", "\\", "/*c*/", "\xef\xbb\xbf", "NaN")
-			text = append(text[:at:at], append([]byte(ins), text[at:]...)...)
-			info.kind = "damaged:bytes-inserted"
-		default:
-			text = append(text[:at:at], text[at+1:]...)
-			info.kind = "damaged:byte-deleted"
-		}
+		text, info.kind = g.damage(text, g.intn("at", 0, len(text)-1))
 		return text, info
 	default:
 		info.kind = "whitespace-only"
@@ -853,6 +838,22 @@ func (g *gen) document() ([]byte, docInfo) {
 		g.c.Label("trailing:second-document")
 	}
 	return []byte(lead + text + trail), info
+}
+
+// damage breaks a rendered document at byte level at the given position.
+func (g *gen) damage(text []byte, at int) ([]byte, string) {
+	switch g.pick("damage", 5, 2, 2, 2) {
+	case 0:
+		return text[:at], "damaged:truncated"
+	case 1:
+		text[at] = sample(g, "repl", byte('{'), byte('}'), byte('['), byte(']'), byte(','), byte(':'), byte('"'), byte('x'), byte(0), byte(0xff), byte('\''))
+		return text, "damaged:byte-replaced"
+	case 2:
+		ins := sample(g, "ins", ",", "}", "]", "\"", "{", "[", "\\", "/*c*/", "\xef\xbb\xbf", "NaN")
+		return append(text[:at:at], append([]byte(ins), text[at:]...)...), "damaged:bytes-inserted"
+	default:
+		return append(text[:at:at], text[at+1:]...), "damaged:byte-deleted"
+	}
 }
 
 func bucket(n int) string {
